@@ -337,6 +337,12 @@ def build_fn(repo, spec, src_cache, base_indent="    "):
     ex.text = text
     ex.origins = line_origin
     ex.fn = spec
+    # repo line ranges of the function's loops (source order), so that a diagnostic can be placed "inside loop N"
+    try:
+        nested = [(n.attr_start, n.body_close) for n in rs.nested_fns(src, m, item.body_open, item.body_close)]
+        ex.loop_lines = [(src.count("\n", 0, o) + 1, src.count("\n", 0, bc) + 1) for o, kw, bo, bc in rs.loops_in(m, item.body_open + 1, item.body_close, nested)]
+    except Exception:
+        ex.loop_lines = []
     return ex
 
 
@@ -399,6 +405,115 @@ def _build_closure(spec, src, m):
             ex.origins.append({"kind": "repo", "file": spec.file, "line": line})
     ex.fn = spec
     return ex
+
+
+def _enclosing_open(m, pos, lo):
+    """offset of the `{` that encloses `pos` (scanning the masked text backwards), or -1."""
+    depth = 0
+    i = pos - 1
+    while i >= lo:
+        c = m[i]
+        if c == "}":
+            depth += 1
+        elif c == "{":
+            if depth == 0:
+                return i
+            depth -= 1
+        i -= 1
+    return -1
+
+
+def _is_tail(m, cstart, cend, body_open, body_close):
+    """True if control leaving the construct m[cstart:cend] normally reaches the end of the loop body
+    (body_open..body_close) without executing anything else: every enclosing construct up to the loop body
+    is a block with nothing after the child, a match arm, or an if/else branch."""
+    for _ in range(64):
+        pre = m[body_open:cstart].rstrip()
+        if pre.endswith("=>"):                       # the construct is the value of a match arm
+            eo = _enclosing_open(m, cstart, body_open + 1)
+            if eo < 0:
+                return False
+            mk = re.compile(r"\bmatch\b[^{};]*$", re.S).search(m, body_open, eo)
+            if not mk:
+                return False
+            cstart, cend = mk.start(), rs.match_close(m, eo) + 1
+            continue
+        q = cend
+        while q < body_close and m[q].isspace():
+            q += 1
+        if q < body_close and m[q] in ";,":
+            q += 1
+            while q < body_close and m[q].isspace():
+                q += 1
+        if q >= body_close:
+            return True
+        if m[q] != "}":
+            return False
+        ob = _enclosing_open(m, q, body_open + 1)
+        if ob < 0:
+            return False
+        # header of the block that closes at q
+        hs = ob
+        while hs > body_open + 1 and m[hs - 1] not in ";{}" and not m[:hs].rstrip().endswith("=>"):
+            hs -= 1
+            if m[hs] == ",":
+                hs += 1
+                break
+        head = m[hs:ob].strip()
+        if re.match(r"(?:'\w+\s*:\s*)?(for|while|loop)\b", head):
+            return False
+        cstart = hs + (len(m[hs:ob]) - len(m[hs:ob].lstrip()))
+        cend = q + 1
+        while True:                                   # an if-chain: skip the remaining else branches
+            em = re.compile(r"\s*else\b").match(m, cend)
+            if not em:
+                break
+            nb = rs.depth0_find(m, em.end(), body_close, lambda mm_, x: mm_[x] == "{")
+            if nb < 0:
+                return False
+            cend = rs.match_close(m, nb) + 1
+    return False
+
+
+def _for_continue_edits(src, m, bo, bc, inner):
+    """D23: this Verus rejects `continue` in a `for` loop.  A `continue` in tail position of the loop body
+    (nothing else would run before the next iteration) is rewritten:
+      `let PAT = EXPR else { continue; }; REST }`  ->  `match EXPR { PAT => { REST } _ => {} } }`
+      `continue;` / `=> continue,`                 ->  `{}`
+    Anything else is left for the verifier to reject (exit 2)."""
+    out = []
+    for cm in re.finditer(r"\bcontinue\b\s*;?", m[bo:bc]):
+        co, ce = bo + cm.start(), bo + cm.end()
+        if any(a < co < b for _, _, a, b in inner):
+            continue
+        eo = _enclosing_open(m, co, bo + 1)
+        le = re.compile(r"\blet\s+(.+?)\s*=\s*(.+?)\s*\belse\s*$", re.S)
+        handled = False
+        if eo > bo and m[eo + 1:rs.match_close(m, eo)].strip() in ("continue;", "continue"):
+            # else-block of a let-else?
+            ss = eo
+            while ss > bo + 1 and m[ss - 1] not in ";{}":
+                ss -= 1
+            lm = le.match(m[ss:eo].strip()) if m[ss:eo].strip().startswith("let") else None
+            if lm:
+                stmt_start = ss + (len(m[ss:eo]) - len(m[ss:eo].lstrip()))
+                ec = rs.match_close(m, eo)
+                semi = ec + 1
+                while m[semi].isspace():
+                    semi += 1
+                blk_open = _enclosing_open(m, stmt_start, bo)
+                if m[semi] == ";" and blk_open >= bo:
+                    blk_close = rs.match_close(m, blk_open)
+                    if _is_tail(m, stmt_start, blk_close, bo, bc):
+                        lm2 = le.match(m, stmt_start, eo)
+                        pat = src[lm2.start(1):lm2.end(1)]
+                        out.append(Edit(stmt_start, lm2.start(2), "match ", "rule", "D23"))
+                        out.append(Edit(lm2.end(2), semi + 1, " { %s => { /* D23: let-else-continue in tail position */" % pat, "rule", "D23"))
+                        out.append(Edit(blk_close, blk_close, "} _ => {} } ", "rule", "D23"))
+                        handled = True
+        if not handled and _is_tail(m, co, ce, bo, bc):
+            out.append(Edit(co, ce, "{ /* D23: continue */ }", "rule", "D23"))
+    return out
 
 
 def _indent_at(src, off):
@@ -517,6 +632,13 @@ def _fn_edits(spec, item, src, m, edits, rule_counts, clauses, top):
                 edits.append(Edit(bo, bo, "\n" + inv + lind, "clause", "%s/loop%d" % (spec.qual, n)))
         if lp.attrs:
             edits.append(Edit(o, o, lp.attrs + "\n" + lind, "sig", "loop-attrs"))
+
+    for (o, kw, bo, bc) in loops:
+        if kw == "for" and not (spec.loops.get(loops.index((o, kw, bo, bc))) and spec.loops[loops.index((o, kw, bo, bc))].desugar_range_for):
+            d23 = _for_continue_edits(src, m, bo, bc, rs.loops_in(m, bo + 1, bc))
+            if d23:
+                edits.extend(d23)
+                rule_counts["D23"] = rule_counts.get("D23", 0) + len(d23)
 
     # --- hints
     def ins_line_before(off, body_of):
